@@ -41,15 +41,25 @@ Section CCSafety.
     intros x H. induction H as [Hb|x x' Hx [s [Hr [Hn Hm]]] Hstep Henv'].
     - exists m_init. split; [apply MR_init|split; reflexivity].
     - pose proof (cxreachableF_cenv x Hx) as Henv.
-      destruct Hstep as [id ev extra Hev Hemit].
+      destruct Hstep as [id cev extra Hev Hemit].
       destruct (cx_nodes x id) as [nx pend] eqn:Enode.
       assert (Hnid : nodes s id = nx) by (rewrite Hn, Enode; reflexivity).
       rewrite <- Hm in Hev.
       assert (Henv0 : lenv F boot (n_log (nodes s id)) (n_commit (nodes s id))).
       { rewrite Hnid. specialize (Henv id). rewrite Enode in Henv. exact Henv. }
-      assert (Henv1 : lenv F boot (n_log (fst (fst (exec_cc boot page1 id ev (nodes s id, pend))))) (n_commit (fst (fst (exec_cc boot page1 id ev (nodes s id, pend)))))).
+      assert (Henv1 : lenv F boot (n_log (fst (fst (exec_cce boot page1 id cev (nodes s id, pend)))))
+                           (n_commit (fst (fst (exec_cce boot page1 id cev (nodes s id, pend)))))).
       { rewrite Hnid. specialize (Henv' id). cbn [cx_nodes] in Henv'. rewrite upd_same in Henv'. exact Henv'. }
-      destruct (exec_cc_sim F HF boot page1 s id ev pend Hr Hev Henv0 Henv1) as [s1 R1].
+      assert (Hsim : exists s1, reaches F s id (fst (fst (exec_cce boot page1 id cev (nodes s id, pend))))
+                                        (snd (exec_cce boot page1 id cev (nodes s id, pend))) s1).
+      { destruct cev as [ev|ps]; cbn [exec_cce] in *.
+        - apply (exec_cc_sim F HF boot page1 s id ev pend Hr); [|exact Henv0|exact Henv1].
+          intros m Em. apply Hev. rewrite Em. reflexivity.
+        - destruct (exec_batch_sim F HF boot page1 s id ps pend Hr Henv0 Henv1) as [s1 R1]. exists s1.
+          replace (snd (exec_batch boot page1 id ps (nodes s id, pend))) with (@nil msg); [exact R1|].
+          unfold exec_batch. destruct (batch_cc id (node_cfg boot (nodes s id)) ps (nodes s id) pend) as [n1 pend1].
+          destruct (iter _ _ _) as [[[n2 c2] pend2] a2]. reflexivity. }
+      destruct Hsim as [s1 R1].
       rewrite Hnid in R1.
       pose proof (proj1 (proj2 R1)) as Hn1.
       assert (Hemit' : forallb (emit_okb id (nodes s1 id)) extra = true).
@@ -136,13 +146,22 @@ Section CCSafety.
     forall y, firstn (n_commit (nodeof x y)) (n_log (nodeof x' y))
               = firstn (n_commit (nodeof x y)) (n_log (nodeof x y)).
   Proof.
-    intros x x' Hx Hs y. destruct Hs as [id ev extra Hev _]. cbn [cx_nodes].
+    intros x x' Hx Hs y. destruct Hs as [id cev extra Hev0 _]. cbn [cx_nodes].
     destruct (Nat.eq_dec y id) as [->|Hy]; [rewrite upd_same|rewrite upd_other by exact Hy; reflexivity].
     destruct (cx_inv x Hx) as (s & I & Hn & Hm).
     destruct (cx_nodes x id) as [n pend] eqn:Enode. cbn [fst].
     assert (Hnid : nodes s id = n) by (rewrite Hn, Enode; reflexivity).
-    rewrite <- Hm in Hev.
+    rewrite <- Hm in Hev0.
     destruct (hK9 _ _ I id) as [H9 _]. unfold nd in H9. rewrite Hnid in H9.
+    destruct cev as [ev|ps]; cbn [exec_cce].
+    2:{ (* a batched proposal only appends *)
+        unfold exec_batch. set (c := node_cfg boot n).
+        destruct (batch_cc_shape id c ps n pend) as (_ & _ & _ & _ & suf0 & Hl). cbn zeta in Hl.
+        destruct (batch_cc id c ps n pend) as [n1 pend1]. cbn [fst] in Hl.
+        destruct (iter_log page1 id (2 * length (n_log n1) + 8) (n1, c, pend1, n_commit n)) as [suf E].
+        destruct (iter (2 * length (n_log n1) + 8) (ready_iter page1 id) (n1, c, pend1, n_commit n)) as [[[n2 c2] pend2] a2].
+        unfold st_node in E. cbn [fst] in *. rewrite E, Hl, <- app_assoc. apply firstn_app_le. exact H9. }
+    assert (Hev : forall m, ev = EvRecv m -> In m (msgs s) /\ m_to m = id) by (intros m Em; apply Hev0; rewrite Em; reflexivity).
     unfold exec_cc. set (c := node_cfg boot n).
     destruct (match ev with EvRecv m => is_response (m_type m) && negb (tracked c (m_from m)) | _ => false end); [reflexivity|].
     assert (Hk : firstn (n_commit n) (n_log (fst (fst (handle_cc id c ev n pend)))) = firstn (n_commit n) (n_log n)).
